@@ -146,8 +146,11 @@ def Toggles.all : List Toggles :=
   bs.flatMap fun a => bs.flatMap fun b => bs.flatMap fun c => bs.flatMap fun d => bs.flatMap fun e => bs.map fun f =>
     ⟨a, b, c, d, e, f⟩
 
+/-- cases of kind `dyn-…` were executed by an `async_graphql::dynamic` schema (nested selection sets serial) -/
+def Case.dyn (c : Case) : Bool := c.kind.startsWith "dyn"
+
 def modelRun (c : Case) (t : Toggles) (es : Entries) : TRes :=
-  Sched.run t.defects t.perOccurrence (gateOf es) c.S c.doc c.opName c.vars c.world (Spec.Exec.fuelBound c.doc)
+  Sched.runWith c.dyn t.defects t.perOccurrence (gateOf es) c.S c.doc c.opName c.vars c.world (Spec.Exec.fuelBound c.doc)
 
 /-- does the model under `t` print exactly the implementation's runs? (stops at the first difference) -/
 def agrees (c : Case) (t : Toggles) (impl : List ImplRun) : Bool :=
